@@ -5,7 +5,7 @@ the real instances (`LawfulSqrtOps Fq`; the tower's `Field Fq2`, `LawfulFieldOps
 theorem.  The `Fr` and `Fq12` parts of C19 never had hypotheses.  Nothing is left as a hypothesis.
 -/
 import PP.Props.C19
-import PP.Proofs.Assembly
+import PP.Proofs.AssemblyFq2
 
 set_option linter.unusedSectionVars false
 
